@@ -466,6 +466,35 @@ func (a *Act) callMods(li *loopInfo, m *modSet, c ssa.CallInstruction, depth int
 		if a.isPureFnValue(com.Value) || com.IsInvoke() && a.invokeIsPure(com) {
 			return
 		}
+		if com.IsInvoke() {
+			if fns, ok := a.closedWorldTargets(com); ok {
+				for _, fn := range fns {
+					for _, b := range fn.Blocks {
+						for _, ins := range b.Instrs {
+							a.instrModsS(li, m, ins, depth+1, append(stack, fn), nil)
+						}
+					}
+				}
+				return
+			}
+			if fc := a.top.fc; fc != nil {
+				for _, c := range fc.Callbacks {
+					if c == com.Method.Name() {
+						if fc.CallbackRank != nil {
+							for _, h := range []string{traceLen, traceKind, traceArg0, traceArg1, traceErr} {
+								m.heap(h, traceSorts[h]).unknown = true
+							}
+							for h, srt := range a.u.heapSort {
+								if strings.HasPrefix(h, "T_arg_") {
+									m.heap(h, srt).unknown = true
+								}
+							}
+						}
+						return
+					}
+				}
+			}
+		}
 		if _, ok := a.assumedCallback(com.Value); ok {
 			if fc := a.top.fc; fc != nil && fc.CallbackRank != nil {
 				for _, h := range []string{traceLen, traceKind, traceArg0, traceArg1, traceErr} {
@@ -553,6 +582,10 @@ func (a *Act) contractMods(li *loopInfo, m *modSet, callee *ssa.Function, fc *Fu
 			continue
 		}
 		for _, me := range cl.Mods {
+			if id, ok := me.(*EIdent); ok && id.Name == "globals" {
+				m.all = true
+				return
+			}
 			tg, err := a.modTarget(callee, me)
 			if err != nil {
 				a.u.warn("modifies target %s of %s: %v", me, callee, err)
@@ -740,24 +773,31 @@ func (a *Act) loopHead(li *loopInfo, st *State, preds []edgeState) *State {
 	for _, cl := range invs {
 		u.TaggedFact(implies(h.guard, a.evalClause(headEnv, cl)), fmt.Sprintf("inv:L%d#%d", li.ord, cl.Ord))
 	}
-	// 4. ghost updates of this loop head
+	// 4. ghost updates of this loop head (in textual order)
 	if a.fc != nil && a == a.top {
-		for _, g := range a.fc.Ghosts {
-			if e, ok := g.Updates[li.ord]; ok {
-				srt, _ := ghostSort(g.Sort)
-				var t Term
-				if err := catch(func() {
-					v := headEnv.value(headEnv.eval(e))
-					t = v.T
-					if v.Sort == "Int" && srt == "Real" {
-						t = toReal(t)
-					}
-				}); err != nil {
-					u.Errors = append(u.Errors, fmt.Sprintf("%s: ghost update %s: %v", u.Name, g.Name, err))
-					continue
-				}
-				h.setHeap("G_"+g.Name, srt, t)
+		for _, gu := range a.fc.GhostUpdates {
+			if gu.Loop != li.ord || gu.End {
+				continue
 			}
+			var g *GhostVar
+			for _, x := range a.fc.Ghosts {
+				if x.Name == gu.Name {
+					g = x
+				}
+			}
+			srt, _ := ghostSort(g.Sort)
+			var t Term
+			if err := catch(func() {
+				v := headEnv.value(headEnv.eval(gu.Expr))
+				t = v.T
+				if v.Sort == "Int" && srt == "Real" {
+					t = toReal(t)
+				}
+			}); err != nil {
+				u.Errors = append(u.Errors, fmt.Sprintf("%s: ghost update %s: %v", u.Name, g.Name, err))
+				continue
+			}
+			h.setHeap("G_"+g.Name, srt, t)
 		}
 	}
 	li.st = h
@@ -781,23 +821,30 @@ func (a *Act) loopHead(li *loopInfo, st *State, preds []edgeState) *State {
 func (a *Act) loopBack(li *loopInfo, st *State, from *ssa.BasicBlock) {
 	invs, decr := a.loopClauses(li)
 	if a.fc != nil && a == a.top {
-		for _, g := range a.fc.Ghosts {
-			if e, ok := g.EndUpdates[li.ord]; ok {
-				srt, _ := ghostSort(g.Sort)
-				genv := a.loopEnv(li, st, "back", from)
-				var t Term
-				if err := catch(func() {
-					v := genv.value(genv.eval(e))
-					t = v.T
-					if v.Sort == "Int" && srt == "Real" {
-						t = toReal(t)
-					}
-				}); err != nil {
-					a.u.Errors = append(a.u.Errors, fmt.Sprintf("%s: ghost-end update %s: %v", a.u.Name, g.Name, err))
-					continue
-				}
-				st.setHeap("G_"+g.Name, srt, t)
+		for _, gu := range a.fc.GhostUpdates {
+			if gu.Loop != li.ord || !gu.End {
+				continue
 			}
+			var g *GhostVar
+			for _, x := range a.fc.Ghosts {
+				if x.Name == gu.Name {
+					g = x
+				}
+			}
+			srt, _ := ghostSort(g.Sort)
+			genv := a.loopEnv(li, st, "back", from)
+			var t Term
+			if err := catch(func() {
+				v := genv.value(genv.eval(gu.Expr))
+				t = v.T
+				if v.Sort == "Int" && srt == "Real" {
+					t = toReal(t)
+				}
+			}); err != nil {
+				a.u.Errors = append(a.u.Errors, fmt.Sprintf("%s: ghost-end update %s: %v", a.u.Name, g.Name, err))
+				continue
+			}
+			st.setHeap("G_"+g.Name, srt, t)
 		}
 	}
 	env := a.loopEnv(li, st, "back", from)
